@@ -223,6 +223,14 @@ Qed.
 Lemma hom_set_gattr a s : aeq (abs (c_set_gattr a s)) (a_set_gattr a (abs s)).
 Proof. apply aeq_refl. Qed.
 
+Lemma hom_clear_all s : aeq (abs (c_clear_all s)) (a_clear_all (abs s)).
+Proof.
+  split; [|split]; simpl; auto.
+  - intros l. apply (kind_map_layers _ _ _ s); auto.
+  - intros l u v. unfold c_clear_all. rewrite (edge_map_layers _ _ _ s) by auto.
+    destruct (find_layer l (layers s)); reflexivity.
+Qed.
+
 Lemma hom_restrict ns s : aeq (abs (c_restrict ns s)) (a_restrict ns (abs s)).
 Proof.
   split; [|split]; simpl.
@@ -245,6 +253,7 @@ Lemma pr_del_edge t u v : forall a b, aeq a b -> aeq (a_del_edge t u v a) (a_del
 Lemma pr_clear t : forall a b, aeq a b -> aeq (a_clear t a) (a_clear t b). Proof. proper. Qed.
 Lemma pr_add_layer l k : forall a b, aeq a b -> aeq (a_add_layer l k a) (a_add_layer l k b). Proof. proper. Qed.
 Lemma pr_del_layer l : forall a b, aeq a b -> aeq (a_del_layer l a) (a_del_layer l b). Proof. proper. Qed.
+Lemma pr_clear_all : forall a b, aeq a b -> aeq (a_clear_all a) (a_clear_all b). Proof. proper. Qed.
 Lemma pr_restrict ns : forall a b, aeq a b -> aeq (a_restrict ns a) (a_restrict ns b). Proof. proper. Qed.
 
 (* ------------------------------------------------------------------ refinement over histories *)
@@ -285,6 +294,7 @@ Proof.
   - eapply aeq_trans; [apply hom_add_layer|apply pr_add_layer; auto].
   - eapply aeq_trans; [apply hom_del_layer|apply pr_del_layer; auto].
   - eapply aeq_trans; [apply hom_set_gattr|auto].
+  - eapply aeq_trans; [apply hom_clear_all|apply pr_clear_all; auto].
   - eapply aeq_trans; [apply hom_restrict|apply pr_restrict; auto].
 Qed.
 
